@@ -5,6 +5,7 @@ REAL_ALL = ["libphysica (all of /repo/src compiled from the current tree)", "lib
 PROPS = {
     "C09": {
         "engine": "interp",
+        "timeout_s": {"quick": 120, "thorough": 600},
         "batches": {
             "quick": [{"config": "gcc-O1-asan-ubsan", "runs": 6000}],
             "thorough": [{"config": "clang-O2", "runs": 50000}, {"config": "gcc-O1-asan-ubsan", "runs": 12000}],
@@ -27,6 +28,7 @@ PROPS = {
     },
     "C08": {
         "engine": "interp",
+        "timeout_s": {"quick": 120, "thorough": 600},
         "batches": {
             "quick": [{"config": "gcc-O1-asan-ubsan", "runs": 6000}],
             "thorough": [{"config": "clang-O2", "runs": 40000}, {"config": "gcc-O1-asan-ubsan", "runs": 10000}],
@@ -47,6 +49,7 @@ PROPS = {
     },
     "C14": {
         "engine": "mc",
+        "timeout_s": {"quick": 120, "thorough": 900},
         "batches": {
             "quick": [{"config": "clang-O2", "runs": 800}, {"config": "gcc-O1-asan-ubsan", "runs": 160}],
             "thorough": [{"config": "clang-O2", "runs": 6000}, {"config": "gcc-O1-asan-ubsan", "runs": 600}],
@@ -69,6 +72,7 @@ PROPS = {
     },
     "C18": {
         "engine": "samplers",
+        "timeout_s": {"quick": 180, "thorough": 900},
         "batches": {
             "quick": [{"config": "clang-O2", "runs": 600}, {"config": "gcc-O1-asan-ubsan", "runs": 200, "kv": {"law_frac": "0.03"}}],
             "thorough": [{"config": "clang-O2", "runs": 4000}, {"config": "gcc-O1-asan-ubsan", "runs": 500, "kv": {"law_frac": "0.03"}}],
@@ -93,6 +97,7 @@ PROPS = {
     },
     "C20": {
         "engine": "fileio",
+        "timeout_s": {"quick": 60, "thorough": 120},
         "states_per_config": True,
         "batches": {
             "quick": [{"config": "gcc-O1-asan-ubsan", "runs": 2000, "kv": {"faults": "A"}},
@@ -126,6 +131,7 @@ PROPS = {
     },
     "C06": {
         "engine": "memo",
+        "timeout_s": {"quick": 120, "thorough": 300},
         "batches": {
             "quick": [{"config": "gcc-O1-asan-ubsan", "runs": 2000}],
             "thorough": [{"config": "gcc-O1-asan-ubsan", "runs": 12000}, {"config": "clang-O2", "runs": 12000}],
